@@ -19,17 +19,30 @@ Inductive ty : Type :=
 | TLit (k : tk)                           (* literal types and void/null/true/false *)
 | TThis
 | TUnique                                 (* unique symbol *)
-| TRef (c : Z) (args : list ty)           (* A<args> *)
+| TRef (c : Z) (q : list Z) (args : list ty)      (* A.B.C<args> *)
+| TTypeof (c : Z) (q : list Z) (args : list ty)   (* typeof a.b.c<args> *)
+| TImport (tof : bool) (q : list Z) (args : list ty)  (* [typeof] import("m").A.B<args> *)
 | TArr (t : ty)                           (* t[] *)
 | TIdx (t u : ty)                         (* t[u] *)
 | TTuple (es : list ty)                   (* [e1, e2] ; elements are TElem *)
-| TElem (dots opt : bool) (t : ty)        (* ...t  /  t?   (tuple element) *)
+| TElem (dots : bool) (lbl : Z) (lopt opt : bool) (t : ty)   (* ...t / t? / name: t / name?: t  (lbl < 0: no label) *)
 | TUnion (a b : ty) | TInter (a b : ty)
 | TKeyof (ro : bool) (t : ty)             (* keyof t / readonly t *)
 | TInfer (x : Z)
 | TParen (t : ty)
+| TFn (kind : Z) (ps : list ty) (ret : ty)   (* kind 0: (ps) => ret ; 1: new (ps) => ret ; 2: abstract new (ps) => ret ; ps are TParam *)
+| TParam (dots : bool) (x : Z) (opt ann : bool) (t : ty)   (* ...x?: t ; x < 0 is "this"; ann = false: no annotation *)
+| TAsserts (x : Z) (hasis : bool) (t : ty)   (* asserts x / asserts x is t  (return position only; x < 0 is "this") *)
+| TObj (ms : list ty)                     (* { members } ; members are TMProp / TMMeth / TMIndex / TMMapped *)
+| TMProp (keys : list Z) (opt : bool) (t : ty) (sep : Z)       (* readonly key?: t ;   sep 0 ";" 1 "," 2 none (last member) *)
+| TMMeth (keys : list Z) (opt : bool) (ps : list ty) (hasret : bool) (ret : ty) (sep : Z)
+                                           (* key?(ps): ret ; keys = [] is a call signature, [new] a construct signature, [get; x] an accessor *)
+| TMIndex (keys : list Z) (k : Z) (kt vt : ty) (sep : Z)       (* readonly [k: kt]: vt *)
+| TMMapped (pm1 : Z) (keys : list Z) (k : Z) (src : ty) (hasas : bool) (ast : ty) (pm2 : Z) (q : bool) (vt : ty) (sep : Z)
+                                           (* +readonly [k in src as ast]-?: vt    pm: 0 none 1 "+" 2 "-" *)
 | TCond (c e a b : ty)                    (* c extends e ? a : b *)
-| TPred (x : Z) (t : ty).                 (* x is t *)
+| TPred (x : Z) (t : ty)                  (* x is t  (x < 0: this is t) *)
+| TTemplate (ts : list ty).               (* `${t1}${t2}` *)
 
 Section ty_ind'.
   Variable P : ty -> Prop.
@@ -37,36 +50,58 @@ Section ty_ind'.
   Hypothesis HLit : forall k, P (TLit k).
   Hypothesis HThis : P TThis.
   Hypothesis HUnique : P TUnique.
-  Hypothesis HRef : forall c args, Forall P args -> P (TRef c args).
+  Hypothesis HRef : forall c q args, Forall P args -> P (TRef c q args).
+  Hypothesis HTypeof : forall c q args, Forall P args -> P (TTypeof c q args).
+  Hypothesis HImport : forall tof q args, Forall P args -> P (TImport tof q args).
   Hypothesis HArr : forall t, P t -> P (TArr t).
   Hypothesis HIdx : forall t u, P t -> P u -> P (TIdx t u).
   Hypothesis HTuple : forall es, Forall P es -> P (TTuple es).
-  Hypothesis HElem : forall d o t, P t -> P (TElem d o t).
+  Hypothesis HElem : forall d l lo o t, P t -> P (TElem d l lo o t).
   Hypothesis HUnion : forall a b, P a -> P b -> P (TUnion a b).
   Hypothesis HInter : forall a b, P a -> P b -> P (TInter a b).
   Hypothesis HKeyof : forall ro t, P t -> P (TKeyof ro t).
   Hypothesis HInfer : forall x, P (TInfer x).
   Hypothesis HParen : forall t, P t -> P (TParen t).
+  Hypothesis HFn : forall k ps ret, Forall P ps -> P ret -> P (TFn k ps ret).
+  Hypothesis HParam : forall d x o a t, P t -> P (TParam d x o a t).
+  Hypothesis HAsserts : forall x h t, P t -> P (TAsserts x h t).
+  Hypothesis HObj : forall ms, Forall P ms -> P (TObj ms).
+  Hypothesis HMProp : forall ks o t s, P t -> P (TMProp ks o t s).
+  Hypothesis HMMeth : forall ks o ps h ret s, Forall P ps -> P ret -> P (TMMeth ks o ps h ret s).
+  Hypothesis HMIndex : forall ks k kt vt s, P kt -> P vt -> P (TMIndex ks k kt vt s).
+  Hypothesis HMMapped : forall p1 ks k src h ast p2 q vt s, P src -> P ast -> P vt -> P (TMMapped p1 ks k src h ast p2 q vt s).
   Hypothesis HCond : forall c e a b, P c -> P e -> P a -> P b -> P (TCond c e a b).
   Hypothesis HPred : forall x t, P t -> P (TPred x t).
+  Hypothesis HTemplate : forall ts, Forall P ts -> P (TTemplate ts).
 
   Fixpoint ty_ind' (t : ty) : P t :=
     let fix go (l : list ty) : Forall P l :=
       match l with [] => Forall_nil P | x :: r => Forall_cons x (ty_ind' x) (go r) end in
     match t with
     | TPrim => HPrim | TLit k => HLit k | TThis => HThis | TUnique => HUnique
-    | TRef c args => HRef c args (go args)
+    | TRef c q args => HRef c q args (go args)
+    | TTypeof c q args => HTypeof c q args (go args)
+    | TImport tof q args => HImport tof q args (go args)
     | TArr t => HArr t (ty_ind' t)
     | TIdx t u => HIdx t u (ty_ind' t) (ty_ind' u)
     | TTuple es => HTuple es (go es)
-    | TElem d o t => HElem d o t (ty_ind' t)
+    | TElem d l lo o t => HElem d l lo o t (ty_ind' t)
     | TUnion a b => HUnion a b (ty_ind' a) (ty_ind' b)
     | TInter a b => HInter a b (ty_ind' a) (ty_ind' b)
     | TKeyof ro t => HKeyof ro t (ty_ind' t)
     | TInfer x => HInfer x
     | TParen t => HParen t (ty_ind' t)
+    | TFn k ps ret => HFn k ps ret (go ps) (ty_ind' ret)
+    | TParam d x o a t => HParam d x o a t (ty_ind' t)
+    | TAsserts x h t => HAsserts x h t (ty_ind' t)
+    | TObj ms => HObj ms (go ms)
+    | TMProp ks o t s => HMProp ks o t s (ty_ind' t)
+    | TMMeth ks o ps h ret s => HMMeth ks o ps h ret s (go ps) (ty_ind' ret)
+    | TMIndex ks k kt vt s => HMIndex ks k kt vt s (ty_ind' kt) (ty_ind' vt)
+    | TMMapped p1 ks k src h ast p2 q vt s => HMMapped p1 ks k src h ast p2 q vt s (ty_ind' src) (ty_ind' ast) (ty_ind' vt)
     | TCond c e a b => HCond c e a b (ty_ind' c) (ty_ind' e) (ty_ind' a) (ty_ind' b)
     | TPred x t => HPred x t (ty_ind' t)
+    | TTemplate ts => HTemplate ts (go ts)
     end.
 End ty_ind'.
 
@@ -74,7 +109,7 @@ End ty_ind'.
    2 intersection, 3 type operator, 4 postfix, 5 primary *)
 Definition prec (t : ty) : Z :=
   match t with
-  | TCond _ _ _ _ | TPred _ _ => 0
+  | TCond _ _ _ _ | TPred _ _ | TFn _ _ _ | TAsserts _ _ _ => 0
   | TUnion _ _ => 1
   | TInter _ _ => 2
   | TKeyof _ _ | TInfer _ | TUnique => 3
@@ -88,30 +123,34 @@ Definition lit_tk (k : tk) : bool :=
 (* ordinary identifiers (not contextual keywords of the type grammar) *)
 Definition normal (c : Z) : bool := 100 <=? c.
 
+(* binding names of parameters / predicates: an ordinary identifier, or "this" (negative) *)
+Definition bind_tk (x : Z) : tk := if x <? 0 then KThis else KIdent x.
+Definition bind_ok (x : Z) : bool := (x <? 0) || normal x.
+
+(* property-name tokens of object type members: identifiers (any class: modifiers
+   such as readonly / get / set are identifiers), "new", string and numeric literals, keywords *)
+Definition key_tk (c : Z) : tk :=
+  if 0 <=? c then KIdent c else if c =? -1 then KNew else if c =? -2 then KStr else if c =? -3 then KNum else KKeyword.
+
 Fixpoint ends_infer (t : ty) : bool :=
   match t with
   | TInfer _ => true
-  | TUnion _ b | TInter _ b | TKeyof _ b | TCond _ _ _ b | TPred _ b => ends_infer b
+  | TUnion _ b | TInter _ b | TKeyof _ b | TCond _ _ _ b | TPred _ b | TFn _ _ b => ends_infer b
+  | TAsserts _ true b => ends_infer b
   | _ => false
   end.
 
-Definition is_elem (t : ty) := match t with TElem _ _ _ => true | _ => false end.
-
-(* first token of the rendering *)
-Definition first_tk (t : ty) : tk :=
+(* types in which no "keyof"/"readonly" operand is exposed to the enclosing suffix loop:
+   allowed as the extends-operand of a conditional type (skipped with
+   disallowConditionalTypes, which keyof's operand skip resets) *)
+Fixpoint nc_ok (t : ty) : bool :=
   match t with
-  | TPrim => KIdent c_prim
-  | TLit k => k
-  | TThis => KThis
-  | TUnique => KIdent c_unique
-  | TRef c _ => KIdent c
-  | TTuple _ => KLBrack
-  | TKeyof ro _ => KIdent (if ro then c_readonly else c_keyof)
-  | TInfer _ => KIdent c_infer
-  | TParen _ => KLParen
-  | TPred x _ => KIdent x
-  | _ => KOther
+  | TUnion a b | TInter a b => nc_ok a && nc_ok b
+  | TKeyof _ _ | TCond _ _ _ _ | TPred _ _ | TAsserts _ _ _ => false
+  | _ => true
   end.
+
+Definition is_elem (t : ty) := match t with TElem _ _ _ _ _ => true | _ => false end.
 
 (* the condition under which the parenthesised form "( t )" is recognised as a
    parenthesised type by skipTypeScriptParenOrFnType after ONE token of
@@ -121,31 +160,69 @@ Definition first_tk (t : ty) : tk :=
 Fixpoint head_atomic (x : ty) : bool :=
   match x with
   | TArr y | TIdx y _ | TUnion y _ | TInter y _ | TCond y _ _ _ => head_atomic y
-  | TPrim | TThis | TRef _ _ | TLit _ | TUnique | TInfer _ | TPred _ _ => true
+  | TPrim | TThis | TRef _ _ _ | TLit _ | TUnique | TInfer _ | TPred _ _ | TTypeof _ _ _ | TImport _ _ _ | TTemplate _ => true
+  | TFn k _ _ => 1 <=? k
   | _ => false
   end.
 Definition paren_content_ok (t : ty) : bool := head_atomic t.
+
+Definition sep_ok (last : bool) (s : Z) : bool := (s =? 0) || (s =? 1) || (last && (s =? 2)).
+Definition pm_ok (p : Z) : bool := (0 <=? p) && (p <=? 2).
+
+(* parameter lists and return positions, parametric in the well-formedness of types
+   (so that they can be named outside [wfb]) *)
+Section WfWith.
+Variable w : ty -> bool.
+Definition wf_ret_with (ret : ty) : bool :=
+  match ret with TAsserts x _ u => bind_ok x && w u | _ => w ret end.
+Fixpoint wf_params_with (ps : list ty) : bool :=
+  match ps with
+  | [] => true
+  | TParam _ x _ ann t :: r => bind_ok x && (if ann then w t else true) && wf_params_with r
+  | _ => false
+  end.
+Definition wf_member_with (last : bool) (m : ty) : bool :=
+  match m with
+  | TMProp ks _ t s => match ks with [] => false | _ => true end && w t && sep_ok last s
+  | TMMeth ks o ps h ret s =>
+      (match ks with [] => negb o | _ => true end) && wf_params_with ps && (if h then wf_ret_with ret else true) && sep_ok last s
+  | TMIndex ks k kt vt s => normal k && w kt && w vt && sep_ok last s
+  | TMMapped p1 ks k src h ast p2 q vt s =>
+      pm_ok p1 && pm_ok p2 && normal k && w src && (if h then w ast else true) && w vt && sep_ok last s
+  | _ => false
+  end.
+Fixpoint wf_members_with (ms : list ty) : bool :=
+  match ms with
+  | [] => true
+  | m :: r => wf_member_with (match r with [] => true | _ => false end) m && wf_members_with r
+  end.
+End WfWith.
 
 Fixpoint wfb (t : ty) : bool :=
   match t with
   | TPrim | TThis | TUnique => true
   | TLit k => lit_tk k
-  | TRef c args => normal c && forallb wfb args
+  | TRef c q args => normal c && forallb normal q && forallb wfb args
+  | TTypeof c q args => normal c && forallb normal q && forallb wfb args
+  | TImport _ q args => forallb normal q && forallb wfb args && match q, args with [], _ :: _ => false | _, _ => true end
   | TArr t => wfb t && (4 <=? prec t)
   | TIdx t u => wfb t && (4 <=? prec t) && wfb u
-  | TTuple es => forallb (fun e => match e with TElem _ _ x => wfb x | _ => false end) es
-  | TElem _ _ _ => false
-  | TUnion a b => wfb a && (1 <=? prec a) && wfb b && (2 <=? prec b)
-  | TInter a b => wfb a && (2 <=? prec a) && wfb b && (3 <=? prec b)
+  | TTuple es => forallb (fun e => match e with TElem _ l _ _ x => ((l <? 0) || normal l) && wfb x | _ => false end) es
+  | TElem _ _ _ _ _ => false
+  | TUnion a b => wfb a && (1 <=? prec a) && negb (ends_infer a) && wfb b && (2 <=? prec b)
+  | TInter a b => wfb a && (2 <=? prec a) && negb (ends_infer a) && wfb b && (3 <=? prec b)
   | TKeyof _ t => wfb t && (3 <=? prec t)
   | TInfer x => normal x
   | TParen t => wfb t && paren_content_ok t
-  | TCond c e a b => wfb c && (1 <=? prec c) && negb (ends_infer c) && wfb e && (4 <=? prec e) && wfb a && wfb b
-  | TPred x t => normal x && wfb t
+  | TFn k ps ret => (0 <=? k) && (k <=? 2) && wf_params_with wfb ps && wf_ret_with wfb ret
+  | TParam _ _ _ _ _ => false
+  | TAsserts _ _ _ => false
+  | TObj ms => wf_members_with wfb ms
+  | TMProp _ _ _ _ | TMMeth _ _ _ _ _ _ | TMIndex _ _ _ _ _ | TMMapped _ _ _ _ _ _ _ _ _ _ => false
+  | TCond c e a b => wfb c && (1 <=? prec c) && negb (ends_infer c) && wfb e && (1 <=? prec e) && nc_ok e && wfb a && wfb b
+  | TPred x t => bind_ok x && wfb t
+  | TTemplate ts => match ts with [] => false | _ => forallb wfb ts end
   end.
-
-(* a proper type (not one of the element / parameter / member wrappers) *)
-Definition proper (t : ty) : bool := negb (is_elem t).
 
 Section Render.
 Variable mg : bool.   (* glue a closing ">" to an adjacent following ">"-token *)
@@ -169,38 +246,71 @@ Fixpoint join (sep : list token) (fs : list (toks -> toks)) (post : toks) : toks
   | f :: r => f (sep ++ join sep r post)
   end.
 
-Fixpoint idents (q : list Z) (post : toks) : toks :=
-  match q with
-  | [] => post
-  | [c] => (KIdent c, false) :: post
-  | c :: r => (KIdent c, false) :: (KDot, false) :: idents r post
-  end.
-
 Definition tk1 (k : tk) : token := (k, false).
 
+(* ".b.c" *)
+Fixpoint dots (q : list Z) (post : toks) : toks :=
+  match q with
+  | [] => post
+  | c :: r => tk1 KDot :: tk1 (KIdent c) :: dots r post
+  end.
+
+Definition keys_toks (ks : list Z) (post : toks) : toks := map (fun c => tk1 (key_tk c)) ks ++ post.
+Definition pm_toks (p : Z) : toks := if p =? 1 then [tk1 KPlus] else if p =? 2 then [tk1 KMinus] else [].
+Definition sep_toks (s : Z) : toks := if s =? 0 then [tk1 KSemi] else if s =? 1 then [tk1 KComma] else [].
+Definition optq (o : bool) : toks := if o then [tk1 KQuestion] else [].
+
 Fixpoint R (t : ty) (post : toks) : toks :=
+  let targs := fun (args : list ty) (post : toks) =>
+    match args with
+    | [] => post
+    | _ => tk1 KLt :: join [tk1 KComma] (map R args) (push_gt post)
+    end in
+  let params := fun (ps : list ty) (post : toks) =>
+    tk1 KLParen :: join [tk1 KComma] (map R ps) (tk1 KRParen :: post) in
   match t with
   | TPrim => tk1 (KIdent c_prim) :: post
   | TLit k => tk1 k :: post
   | TThis => tk1 KThis :: post
   | TUnique => tk1 (KIdent c_unique) :: tk1 (KIdent c_symbol) :: post
-  | TRef c args =>
-      tk1 (KIdent c) :: (match args with
-                         | [] => post
-                         | _ => tk1 KLt :: join [tk1 KComma] (map R args) (push_gt post)
-                         end)
+  | TRef c q args => tk1 (KIdent c) :: dots q (targs args post)
+  | TTypeof c q args => tk1 KTypeof :: tk1 (KIdent c) :: dots q (targs args post)
+  | TImport tof q args =>
+      (if tof then [tk1 KTypeof] else []) ++
+      tk1 KImport :: tk1 KLParen :: tk1 KStr :: tk1 KRParen :: dots q (targs args post)
   | TArr t => R t (tk1 KLBrack :: tk1 KRBrack :: post)
   | TIdx t u => R t (tk1 KLBrack :: R u (tk1 KRBrack :: post))
   | TTuple es => tk1 KLBrack :: join [tk1 KComma] (map R es) (tk1 KRBrack :: post)
-  | TElem d o t =>
-      (if d then [tk1 KDotDotDot] else []) ++ R t ((if o then [tk1 KQuestion] else []) ++ post)
+  | TElem d l lo o t =>
+      (if d then [tk1 KDotDotDot] else []) ++
+      (if l <? 0 then R t (optq o ++ post)
+       else tk1 (KIdent l) :: optq lo ++ tk1 KColon :: R t post)
   | TUnion a b => R a (tk1 KBar :: R b post)
   | TInter a b => R a (tk1 KAmp :: R b post)
   | TKeyof ro t => tk1 (KIdent (if ro then c_readonly else c_keyof)) :: R t post
   | TInfer x => tk1 (KIdent c_infer) :: tk1 (KIdent x) :: post
   | TParen t => tk1 KLParen :: R t (tk1 KRParen :: post)
+  | TFn k ps ret =>
+      (if k =? 2 then [tk1 (KIdent c_abstract); tk1 KNew] else if k =? 1 then [tk1 KNew] else []) ++
+      params ps (tk1 KArrow :: R ret post)
+  | TParam d x o ann t =>
+      (if d then [tk1 KDotDotDot] else []) ++ tk1 (bind_tk x) :: optq o ++
+      (if ann then tk1 KColon :: R t post else post)
+  | TAsserts x h t =>
+      tk1 (KIdent c_asserts) :: tk1 (bind_tk x) :: (if h then tk1 (KIdent c_is) :: R t post else post)
+  | TObj ms => tk1 KLBrace :: join [] (map R ms) (tk1 KRBrace :: post)
+  | TMProp ks o t s => keys_toks ks (optq o ++ tk1 KColon :: R t (sep_toks s ++ post))
+  | TMMeth ks o ps h ret s =>
+      keys_toks ks (optq o ++ params ps (if h then tk1 KColon :: R ret (sep_toks s ++ post) else sep_toks s ++ post))
+  | TMIndex ks k kt vt s =>
+      keys_toks ks (tk1 KLBrack :: tk1 (KIdent k) :: tk1 KColon :: R kt (tk1 KRBrack :: tk1 KColon :: R vt (sep_toks s ++ post)))
+  | TMMapped p1 ks k src h ast p2 q vt s =>
+      pm_toks p1 ++ keys_toks ks (tk1 KLBrack :: tk1 (KIdent k) :: tk1 KIn ::
+        R src ((if h then tk1 (KIdent c_as) :: R ast (tk1 KRBrack :: pm_toks p2 ++ optq q ++ tk1 KColon :: R vt (sep_toks s ++ post))
+                else tk1 KRBrack :: pm_toks p2 ++ optq q ++ tk1 KColon :: R vt (sep_toks s ++ post))))
   | TCond c e a b => R c (tk1 KExtends :: R e (tk1 KQuestion :: R a (tk1 KColon :: R b post)))
-  | TPred x t => tk1 (KIdent x) :: tk1 (KIdent c_is) :: R t post
+  | TPred x t => tk1 (bind_tk x) :: tk1 (KIdent c_is) :: R t post
+  | TTemplate ts => tk1 KTplHead :: join [tk1 KTplMid] (map R ts) (tk1 KTplTail :: post)
   end.
 End Render.
 
